@@ -951,10 +951,29 @@ pub fn huge_payload_doc() -> Tree {
     ])
 }
 
+/// wide rather than deep: 33..400 small containers or scalars side by side (more members than
+/// small-size shortcuts of sorts and scans cover, more containers than a nesting budget that counts
+/// siblings would allow)
+pub fn wide_doc(rng: &mut Rng) -> Tree {
+    let rows = *rng.pick(&[33usize, 40, 65, 66, 100, 129, 130, 257, 300, 400]);
+    let row = |rng: &mut Rng, k: usize| match rng.below(4) {
+        0 => Tree::Arr(vec![scalar(rng, false)]),
+        1 => Tree::Obj(vec![("k".into(), scalar(rng, false))]),
+        2 => Tree::Num(num(rng, false)),
+        _ => Tree::Obj(vec![("id".into(), Tree::Num(Num::U(k as u64))), ("v".into(), scalar(rng, false))]),
+    };
+    if rng.bool() {
+        Tree::Arr((0..rows).map(|k| row(rng, k)).collect())
+    } else {
+        Tree::obj_from((0..rows).map(|k| (format!("k{:03}", k), row(rng, k))).collect())
+    }
+}
+
 /// documents whose element counts / payload lengths cross 2^8 and 2^16, so that a narrowing cast
 /// or a one-byte length somewhere in a walker becomes visible
 pub fn big_doc(rng: &mut Rng, huge: bool) -> Tree {
-    let n_small = *rng.pick(&[255usize, 256, 257, 300]);
+    // mostly around 2^8; one in five around 2^12 (pre-allocation caps, block sizes)
+    let n_small = if rng.chance(1, 5) { *rng.pick(&[4_095usize, 4_096, 4_097, 5_000]) } else { *rng.pick(&[255usize, 256, 257, 300]) };
     let n = if huge && rng.chance(1, 4) { *rng.pick(&[65_535usize, 65_536, 65_540]) } else { n_small };
     match rng.below(6) {
         0 => Tree::Arr((0..n).map(|i| if i % 7 == 0 { Tree::Str(format!("s{}", i)) } else { Tree::Num(Num::U(i as u64)) }).collect()),
